@@ -39,7 +39,7 @@ type ContinueWhopper struct {
 // Call the the function with the arguments provided.
 func (f *ContinueWhopper) Call(s *slip.Scope, args slip.List, depth int) slip.Object {
 	loc, _ := s.Get("~whopper-location~").(*slip.WhopLoc)
-	if loc == nil {
+	if loc == nil || loc.Primary {
 		slip.ErrorPanic(s, depth, "%s called outside an around method daemon.", f.Name)
 	}
 	return loc.Continue(s, args, depth)
